@@ -299,7 +299,7 @@ def untrusted_suite(tier, rng, replay):
                 if f.endswith(".json"):
                     j = json.load(open(os.path.join(d, f)))
                     cases.append({"cfg": j.get("cfg", {}), "ops": j["ops"], "origin": "corpus/C19u/" + f})
-        n = 4 if tier == "quick" else 24
+        n = 4 if tier == "quick" else 12
         for i in range(n):
             r = rng.fork(19900 + i)
             ops = [["ustart"]]
